@@ -784,6 +784,11 @@ fn type_rule_to_rust_def(
     let type1 = &tc.type1;
     match &type1.type2 {
       Type2::Map { group, .. } => {
+        // a map that is nothing but a table (`{ * tstr => T }`) is the table
+        // itself, as it is when it appears as the type of a field
+        if let Some(target) = detect_table_type(group)? {
+          return Ok(Some(RustTypeDef::TypeAlias { name, target, doc }));
+        }
         let fields = group_to_fields(group, comments)?;
         Ok(Some(RustTypeDef::Struct { name, fields, doc }))
       }
